@@ -957,6 +957,88 @@ def _ops_reaching(d, df):
     return out
 
 
+def allowed_position_multi_op(rng, sv, doc):
+    """two operations share a fragment (directly or through a nested fragment) that uses `$zzm`; one operation
+    declares it with an allowed type, the other with a type that is not allowed at that position (spec 5.8.5 is per
+    operation); both definition orders"""
+    d = copy.deepcopy(doc)
+    root = sv.root("query")
+    for o in ops(d):
+        if o["name"] is None:
+            o["name"] = "OpAnon"
+            o["long"] = True
+    sites = []
+    for f in sv.fields(root):
+        if not sv.is_leaf(gs.ty_base(f["type"])):
+            continue
+        for a in f.get("args") or []:
+            others = [x for x in f["args"] if x is not a and x["type"][0] == "nonNull" and x.get("default") is None]
+            lits = [(x["name"], _good_literal(sv, x["type"])) for x in others]
+            if all(l is not None for _, l in lits):
+                sites.append((f, a, lits))
+    if sites and rng.random() < 0.75:
+        f, a, lits = rng.choice(sites)
+        t = a["type"]
+        wrong = _wrong_var_type(rng, sv, t, a.get("default") is not None)
+        use = mk_field(f, alias="zm", args=[{"name": a["name"], "value": ("var", "zzm")}] +
+                       [{"name": n, "value": l} for n, l in lits])
+        feat = wrong[1]
+        wrong_t = wrong[0]
+    else:
+        t = ("nonNull", ("named", "Boolean"))
+        wrong_t, feat = rng.choice([(("named", "Boolean"), "nullable-variable-at-non-null-position"),
+                                    (("named", "String"), "other-base-type")])
+        use = {"k": "field", "alias": "zm", "name": "__typename", "args": [],
+               "dirs": [{"name": "include", "args": [{"name": "if", "value": ("var", "zzm")}]}], "sels": None}
+    nested = rng.random() < 0.5
+    names = rng.choice([("Zm", "Zn"), ("M", "N")])
+    fr = [{"k": "frag", "name": names[0], "on": root, "dirs": [], "sels": [use]}]
+    top = names[0]
+    if nested:
+        fr.append({"k": "frag", "name": names[1], "on": root, "dirs": [], "sels": [{"k": "spread", "name": names[0], "dirs": []}]})
+        top = names[1]
+
+    def op(name, ty):
+        return {"k": "op", "op": "query", "name": name, "vars": [{"name": "zzm", "type": ty, "default": None}], "dirs": [],
+                "sels": [{"k": "spread", "name": top, "dirs": []}]}
+    good, bad = op("ZmGood", t), op("ZmBad", wrong_t)
+    allowed_first = rng.random() < 0.5
+    i = rng.randint(0, len(d["defs"]))
+    d["defs"][i:i] = [good, bad] if allowed_first else [bad, good]
+    for x in fr:
+        d["defs"].insert(rng.randint(0, len(d["defs"])), x)
+    return d, "two-operations-share-fragment-%s-%s:%s" % ("nested" if nested else "direct",
+                                                          "allowed-first" if allowed_first else "disallowed-first", feat)
+
+
+def stack_leak_unknown_field(rng, sv, doc):
+    """`p { f { ... { __typename } }  ... { zz: g } }`: g is a field of the type of f but NOT of the type of p; the untyped
+    inline fragment inside f comes first, the shallower untyped one after it (a type-stack leak would accept g)"""
+    d = copy.deepcopy(doc)
+    p = Pos(sv, d)
+    lists = [(l, par, df, depth) for l, par, df, depth in p.lists if par
+             and not (df["k"] == "op" and df["op"] == "subscription" and depth == 0)]
+    rng.shuffle(lists)
+    noreq = lambda f: not any(a["type"][0] == "nonNull" and a.get("default") is None for a in f.get("args") or [])
+    for l, par, _, _ in lists:
+        cands = []
+        for f in sv.fields(par):
+            o = gs.ty_base(f["type"])
+            if sv.kind(o) in ("object", "interface") and o != par and noreq(f):
+                for g in sv.fields(o):
+                    if sv.is_leaf(gs.ty_base(g["type"])) and noreq(g) and not sv.field(par, g["name"]):
+                        cands.append((f, g))
+        if cands:
+            f, g = rng.choice(cands)
+            leak = mk_field(f, alias="zk", sels=[{"k": "inline", "on": None, "dirs": [], "sels": [typename()]}])
+            dirs = [] if rng.random() < 0.5 else [{"name": "include", "args": [{"name": "if", "value": ("bool", True)}]}]
+            probe = {"k": "inline", "on": None, "dirs": dirs, "sels": [mk_field(g, alias="zz1")]}
+            i = rng.randint(0, len(l))
+            l[i:i] = [leak, probe]
+            return d, "field-of-child-type-after-untyped-inline-in-%s-on-%s" % (sv.kind(gs.ty_base(f["type"])), sv.kind(par))
+    return None
+
+
 def bare_inline_site(rng, sv, d):
     """(selection list, its parent type): the body of a condition-less inline fragment `... { }` /
     `... @include(if: true) { }` directly under a field whose type is WRAPPED (list / non-null); created if absent"""
@@ -1087,6 +1169,8 @@ INJECTORS = [
     ("all_variable_uses_defined", "5.8.3", ["NoUndefinedVariablesChecker"], all_variable_uses_defined),
     ("all_variables_used", "5.8.4", ["NoUnusedVariablesChecker"], all_variables_used),
     ("all_variable_usages_allowed", "5.8.5", ["VariablesInAllowedPositionChecker"], variable_usages_allowed),
+    ("all_variable_usages_allowed", "5.8.5", ["VariablesInAllowedPositionChecker"], allowed_position_multi_op),
+    ("fields_on_correct_type", "5.3.1", ["FieldsOnCorrectTypeChecker"], stack_leak_unknown_field),
     # the same rules, violated inside `... { }` under a list / non-null field
     ("fields_on_correct_type", "5.3.1", ["FieldsOnCorrectTypeChecker"], _bare(_b_unknown_field)),
     ("leaf_field_selections", "5.3.3", ["ScalarLeafsChecker"], _bare(_b_leaf)),
